@@ -15,10 +15,12 @@ CONSTANTS Target        \* "size" (u64 bytes) | "interval" (i64 count of a named
 
 \* ---- numbers: [t |-> "pow", k, d] = 2^k + d ; [t |-> "small", n] ; [t |-> "huge"] = 20 nines ; [t |-> "lz", n] = "00" n
 PowNums == [t : {"pow"}, k : 0..64, d : {-1, 0, 1}, n : {0}]
+\* [t |-> "sp", n] = the digits of n with a blank after the first one ("1 0", "1 024"): not a number
 SmallNums == [t : {"small", "lz"}, k : {0}, d : {0}, n : {0, 1, 7, 1024}] \cup {[t |-> "huge", k |-> 0, d |-> 0, n |-> 0]}
+             \cup [t : {"sp"}, k : {0}, d : {0}, n : {10, 1024}]
 \* number < 2^bits ?   (bits = 64 for sizes / unsigned scalars, 63 for intervals)
 FitsBits(num, shift, bits) ==
-  CASE num.t \in {"small", "lz"} -> TRUE                    \* at most 1024 * 2^40
+  CASE num.t \in {"small", "lz", "sp"} -> TRUE                    \* at most 1024 * 2^40
     [] num.t = "huge" -> FALSE
     [] OTHER -> IF num.k = 0 THEN TRUE                       \* 0, 1, 2
                 ELSE (num.k + shift < bits) \/ (num.k + shift = bits /\ num.d = -1)
@@ -29,7 +31,8 @@ IntervalUnits == {"second", "seconds", "SECONDS", "Minute", "minutes", "hour", "
                   "month", "MONTHS", "year", "Years"}
 \* "~" stands for U+212A KELVIN SIGN (lower-cases to "k" under full Unicode case folding), "^" for U+017F LATIN
 \* SMALL LETTER LONG S (upper-cases to "S"): units are ASCII case-insensitive only, so these are junk
-JunkUnits == {"k", "kbs", "bytes", "sec", "s", "fortnight", "kb x", "b1", "pb", "~b", "~ib", "wee~", "wee~s", "^econd", "^econds", "m^"}
+JunkUnits == {"k", "kbs", "bytes", "sec", "s", "fortnight", "kb x", "b1", "pb", "~b", "~ib", "wee~", "wee~s", "^econd", "^econds", "m^",
+              "k b", "ki b", "m  b", "sec onds", "wee ks"}
 Lower(u) == CASE u \in {"b", "B"} -> "b" [] u \in {"kb", "KB", "Kb"} -> "kb" [] u \in {"kib", "KiB"} -> "kib"
               [] u \in {"mb", "Mb"} -> "mb" [] u = "MIB" -> "mib" [] u = "gb" -> "gb" [] u = "GiB" -> "gib"
               [] u \in {"tb", "TB"} -> "tb" [] u = "tib" -> "tib"
@@ -44,13 +47,13 @@ Bits == IF Target = "size" THEN 64 ELSE 63
 \* ---- literals
 Lit == [form : {"int", "str"}, lead : {"", " ", "-"}, num : PowNums \cup SmallNums, frac : BOOLEAN,
         ws : {"", " ", "   "}, unit : {""} \cup SizeUnits \cup IntervalUnits \cup JunkUnits, trail : {"", " "}]
-WellShapedInt(l) == l.form = "int" /\ l.frac = FALSE /\ l.ws = "" /\ l.unit = "" /\ l.trail = "" /\ l.lead \in {"", "-"} /\ l.num.t # "lz"
+WellShapedInt(l) == l.form = "int" /\ l.frac = FALSE /\ l.ws = "" /\ l.unit = "" /\ l.trail = "" /\ l.lead \in {"", "-"} /\ l.num.t \notin {"lz", "sp"}
 \* the verdict: [ok, shift, unit]
 Decide(l) ==
   IF l.form = "int"
   THEN \* an integer scalar: bytes / seconds; negative numbers and numbers outside the target type are rejected
        [ok |-> l.lead = "" /\ FitsBits(l.num, 0, Bits), shift |-> 0, unit |-> IF Target = "size" THEN "b" ELSE "second"]
-  ELSE IF l.lead # "" \/ l.frac THEN [ok |-> FALSE, shift |-> 0, unit |-> ""]          \* sign, leading blank, fraction
+  ELSE IF l.lead # "" \/ l.frac \/ l.num.t = "sp" THEN [ok |-> FALSE, shift |-> 0, unit |-> ""]   \* sign, leading blank, fraction, blank inside the digits
   ELSE IF l.unit = "" THEN [ok |-> FitsBits(l.num, 0, Bits), shift |-> 0, unit |-> IF Target = "size" THEN "b" ELSE "second"]
   ELSE IF ~KnownUnit(l.unit) THEN [ok |-> FALSE, shift |-> 0, unit |-> ""]
   ELSE IF Target = "size" THEN [ok |-> FitsBits(l.num, Shift(l.unit), 64), shift |-> Shift(l.unit), unit |-> "b"]
@@ -64,7 +67,9 @@ Spelled == {l \in Lit : l.num \in SmallNums /\ l.num.t # "huge" /\ (l.form = "st
 Space == {l \in Plain \cup Spelled : (l.unit \in SizeUnits => Target = "size") /\ (l.unit \in IntervalUnits => Target = "interval")
                                       /\ (l.unit = "" => (l.ws = "" /\ l.trail = ""))   \* a bare number followed by blanks is not specified
                                       \* "-0" is read differently by YAML and JSON; it is not a number the property talks about
-                                      /\ ~(l.lead = "-" /\ ((l.num.t = "pow" /\ l.num.k = 0 /\ l.num.d = -1) \/ (l.num.t # "pow" /\ l.num.n = 0)))}
+                                      /\ ~(l.lead = "-" /\ ((l.num.t = "pow" /\ l.num.k = 0 /\ l.num.d = -1) \/ (l.num.t # "pow" /\ l.num.n = 0)))
+                                      \* "1 0" without a unit and followed by nothing is a digit, blanks, digit: covered with units only
+                                      /\ (l.num.t = "sp" => l.unit # "")}
 Init == lit \in Space /\ phase = "new"
 Judge == phase = "new" /\ phase' = "judged" /\ UNCHANGED lit
 Next == Judge
